@@ -137,6 +137,43 @@ def headerPkt (pgno stream ci n : Nat) (tail : List Nat) : List Nat :=
     [ham8 (pgno &&& 15), ham8 ((pgno >>> 4) &&& 15),
      ham8 (subno &&& 15), ham8 ((subno >>> 4) &&& 15), ham8 ((subno >>> 8) &&& 15), ham8 ((subno >>> 12) &&& 15)] ++ tail
 
+/-- magazine (as the page number base 0x100 .. 0x800) and packet number of a Teletext packet,
+    `none` if an address byte is damaged beyond repair -/
+def addrOf (buf : List Nat) : Option (Nat × Nat) :=
+  match unham8 (buf.getD 0 0), unham8 (buf.getD 1 0) with
+  | some a, some b =>
+    let v := a ||| (b <<< 4)
+    some (if v &&& 7 = 0 then 0x800 else (v &&& 7) <<< 8, v >>> 3)
+  | _, _ => none
+
+/-- page number byte of a page header, `none` if damaged beyond repair -/
+def pageByteOf (buf : List Nat) : Option Nat :=
+  match unham8 (buf.getD 2 0), unham8 (buf.getD 3 0) with
+  | some a, some b => some (a ||| (b <<< 4))
+  | _, _ => none
+
+/-- rows `X/y0, X/(y0+1), ...` of a page from their (block pointer nibble, payload) pairs -/
+def rowsPkts (pgno : Nat) : Nat → List (Nat × List Nat) → List (List Nat)
+  | _, [] => []
+  | y0, (bp, pl) :: r => rowPkt pgno y0 bp pl :: rowsPkts pgno (y0 + 1) r
+
+/-- one transmitted page of the stream: the rest of its header and its rows -/
+structure Page where
+  tail : List Nat
+  rows : List (Nat × List Nat)
+
+/-- header and rows of one page with continuity index `ci` -/
+def pagePkts (pgno stream ci : Nat) (pg : Page) : List (List Nat) :=
+  headerPkt pgno stream ci pg.rows.length pg.tail :: rowsPkts pgno 1 pg.rows
+
+/-- consecutive pages, continuity index counting up from `ci` modulo 16 -/
+def pagesPkts (pgno stream : Nat) : Nat → List Page → List (List Nat)
+  | _, [] => []
+  | ci, pg :: r => pagePkts pgno stream ci pg ++ pagesPkts pgno stream ((ci + 1) &&& 15) r
+
+/-- all rows of consecutive pages -/
+def allRows (pages : List Page) : List (Nat × List Nat) := pages.flatMap (·.rows)
+
 /-! ## the sender -/
 
 inductive Role | sep | hdr | data | fill
